@@ -23,12 +23,12 @@ CHECKS['C18'] = dict(
          'randomx_reciprocal_fast. No-op rule: (33 no-op divisors) x dst x 8 IMUL_RCP opcodes x 10 preceding writer kinds; decoder must yield NOP and a '
          'following CBRANCH must still target the earlier writer. JIT side of the no-op rule: generated programs with a no-op IMUL_RCP between the '
          'last writer and a CBRANCH, JIT vs interpreter state equality. Non-trivial: distinct proper divisor / distinct run base / no-op divisor case; '
-         'thorough enumerates all 2^32-33 divisors (exhaustive)',
+         'both tiers additionally enumerate all 2^32-33 divisors (exhaustive for the reciprocal claim; ~30 s on 16 cores)',
     assumptions=COMMON_ASSUME + ['unsigned __int128 division of the compiler runtime (libgcc __udivti3) is correct'],
-    exhaustive={'thorough': True},
+    exhaustive={'quick': True, 'thorough': True},
     stages=[
         dict(name='rcp', harness=H('c18', ['harness/c18_reciprocal.cpp']),
-             plan={'quick': 'rcp=2000000,rcp_run=4000,noop_decode=200000', 'thorough': 'rcp=20000000,rcp_run=40000,noop_decode=2000000,rcp_exhaustive=all'}),
+             plan={'quick': 'rcp=2000000,rcp_run=4000,noop_decode=200000,rcp_exhaustive=all', 'thorough': 'rcp=20000000,rcp_run=40000,noop_decode=2000000,rcp_exhaustive=all'}),
     ],
 )
 
@@ -37,13 +37,13 @@ CHECKS['C11'] = dict(
     rule='generated (message, outlen 1..64, key 0..64 bytes) with lengths biased to block boundaries (0,1,127,128,129,255..257,4095..4097 and uniform <=520); '
          'streaming cases add generated cut points incl. empty chunks and cuts at 127/128/129; counter cases inject a 128-bit byte counter shortly before '
          '2^64 / 2^32 on both sides so the carry into t[1] is exercised; invalid-parameter tuples (8 kinds); (input, hash32) pairs for the commitment; '
-         'thorough: one > 4 GiB stream. Oracle: independent RFC 7693 model (anchored to the RFC vector and 2000 hashlib cases). '
+         'quick: two messages of 2^32+257..2^32+4M bytes each handed over in a single call (one-shot, and update(k)+update(rest)); thorough: 16 of those and 16 chunked > 4 GiB streams. Oracle: independent RFC 7693 model (anchored to the RFC vector and 2000 hashlib cases). '
          'Non-trivial: multi-block message, keyed, or odd outlen (oneshot); >1 chunk and >128 bytes (stream); counter carry (counter); every invalid tuple; every commitment',
     assumptions=COMMON_ASSUME + ['model/ref_blake2b.cpp is a correct reading of RFC 7693 (self-tested against the RFC vector and CPython hashlib at setup)'],
     stages=[
-        dict(name='blake', harness=H('c11', ['harness/c11_blake2b.cpp'], model=True),
-             plan={'quick': 'oneshot=120000,stream=120000,counter=40000,invalid=40000,commitment=40000',
-                   'thorough': 'oneshot=3000000,stream=3000000,counter=1000000,invalid=400000,commitment=1000000,bigstream=16'}),
+        dict(name='blake', harness=H('c11', ['harness/c11_blake2b.cpp'], model=True), env={'VERIF_CASE_TIMEOUT': '1200'}, replay_timeout=1800,
+             plan={'quick': 'oneshot=120000,stream=120000,counter=40000,invalid=40000,commitment=40000,bigshot=2',
+                   'thorough': 'oneshot=3000000,stream=3000000,counter=1000000,invalid=400000,commitment=1000000,bigstream=16,bigshot=16'}),
         dict(name='fuzz', kind='fuzz', target='blake2b', harness=H('fz_blake2b', ['fuzz/fuzz_blake2b.cpp'], variant='fuzz', model=True), max_len=2048,
              runs={'quick': 480000, 'thorough': 16000000}),
     ],
